@@ -10,7 +10,7 @@ CHECKS = {
     "C01": dict(
         level="model_checking",
         technique="TLA+ transcription of GM/T 0003.2 checked exhaustively by TLC on toy prime-order groups (SM2Toy: completeness, soundness, nonce->r, every retry branch reachable) and evaluated on the real curve (SM2.tla over BigNat/ECurve/SM3, anchored by the GM/T 0003.5 Appendix A example); every TLC case replayed into the real sm2 functions (toy cases through an elliptic.Curve built from TLC's point table)",
-        text="On a 29-point (thorough: also 103-point) curve TLC enumerates every private key, every digest residue and every nonce, proves on the specification that every emitted signature verifies, that the accepted (r,s) are exactly the emitted ones, and that r=0 / r+k=n / s=0 are reachable; the real Sm2Sign must return the same (r,s) after the same number of draws and Sm2Verify/Verify must accept exactly the same set among all (r,s) in [0,n]^2. On the real curve TLC computes ZA, e, (r,s) for scripted nonces over boundary keys, keys with short coordinates (found by TLC), ids absent/default/1/8191 bytes, message lengths to 64 KiB, and the verdict for 16 perturbations of each valid tuple; DER strictness is tried on 10 malformations.",
+        text="On a 29-point (thorough: also 59-point) curve TLC enumerates every private key, every digest residue and every nonce, proves on the specification that every emitted signature verifies, that the accepted (r,s) are exactly the emitted ones, and that r=0 / r+k=n / s=0 are reachable; the real Sm2Sign must return the same (r,s) after the same number of draws and Sm2Verify/Verify must accept exactly the same set among all (r,s) in [0,n]^2. On the real curve TLC computes ZA, e, (r,s) for scripted nonces over boundary keys, keys with short coordinates (found by TLC), ids absent/default/1/8191 bytes, message lengths to 64 KiB, and the verdict for 16 perturbations of each valid tuple; DER strictness is tried on 10 malformations.",
         note="Trusts TLC, BigInteger under BigNat, SM3.tla. The toy curve in the harness is a table lookup in TLC's XY table. Candidates whose verification meets the point at infinity are left unspecified.",
         ref="DESIGN.md section 5 C01"),
     "C02": dict(
